@@ -456,7 +456,12 @@ def judge_e2e(path, seed, n):
         return fails, hist, evals
     for line in open(path):
         r = json.loads(line)
-        key = "e2e %s %s" % (r["policy"], r["op"] or "?")
+        opn = (r["op"] or "?")
+        if r.get("partial"):
+            opn = opn.split("(")[0] + "(part)"
+        else:
+            opn = opn.replace("(0,-1)", "(all)").replace("(-inf,+inf)", "(all)")
+        key = "e2e %s %s" % (r["policy"], opn)
         hist[key] = hist.get(key, 0) + 1
         evals += 1
         why = []
